@@ -116,6 +116,9 @@ type declSpec struct {
 	// DefShare: Strings declarations naming the same key are given the very same default slice
 	// (as a user who reuses one variable for several defaults would)
 	DefShare string `json:"defshare"`
+	// Conv: declare through the positional convenience API (cmd.BoolOpt(name, value, desc), ...); only
+	// honoured when the declaration has no EnvVar, HideValue or SetByUser, which that API cannot express
+	Conv bool `json:"conv"`
 }
 
 type hookSpec struct {
@@ -407,9 +410,28 @@ func declare(cmd *cli.Cmd, d *declSpec, path string, sharedDefs map[string][]str
 		rec.sbu = sbu
 	}
 
+	conv := d.Conv && env == "" && !d.Hide && sbu == nil
+
 	switch d.Kind {
 	case "bool":
 		def := parseBoolDef(d)
+		if conv {
+			var ptr *bool
+			switch {
+			case isOpt && d.Ptr:
+				ptr = new(bool)
+				cmd.BoolOptPtr(ptr, name, def, desc)
+			case isOpt:
+				ptr = cmd.BoolOpt(name, def, desc)
+			case d.Ptr:
+				ptr = new(bool)
+				cmd.BoolArgPtr(ptr, name, def, desc)
+			default:
+				ptr = cmd.BoolArg(name, def, desc)
+			}
+			rec.read = func() []string { return []string{strconv.FormatBool(*ptr)} }
+			break
+		}
 		var p cli.BoolParam
 		if isOpt {
 			p = cli.BoolOpt{Name: name, Desc: desc, EnvVar: env, Value: def, HideValue: d.Hide, SetByUser: sbu}
@@ -428,6 +450,23 @@ func declare(cmd *cli.Cmd, d *declSpec, path string, sharedDefs map[string][]str
 
 	case "string":
 		def := single(d, "")
+		if conv {
+			var ptr *string
+			switch {
+			case isOpt && d.Ptr:
+				ptr = new(string)
+				cmd.StringOptPtr(ptr, name, def, desc)
+			case isOpt:
+				ptr = cmd.StringOpt(name, def, desc)
+			case d.Ptr:
+				ptr = new(string)
+				cmd.StringArgPtr(ptr, name, def, desc)
+			default:
+				ptr = cmd.StringArg(name, def, desc)
+			}
+			rec.read = func() []string { return []string{*ptr} }
+			break
+		}
 		var p cli.StringParam
 		if isOpt {
 			p = cli.StringOpt{Name: name, Desc: desc, EnvVar: env, Value: def, HideValue: d.Hide, SetByUser: sbu}
@@ -446,6 +485,23 @@ func declare(cmd *cli.Cmd, d *declSpec, path string, sharedDefs map[string][]str
 
 	case "int":
 		def := parseIntS(d, single(d, "0"))
+		if conv {
+			var ptr *int
+			switch {
+			case isOpt && d.Ptr:
+				ptr = new(int)
+				cmd.IntOptPtr(ptr, name, def, desc)
+			case isOpt:
+				ptr = cmd.IntOpt(name, def, desc)
+			case d.Ptr:
+				ptr = new(int)
+				cmd.IntArgPtr(ptr, name, def, desc)
+			default:
+				ptr = cmd.IntArg(name, def, desc)
+			}
+			rec.read = func() []string { return []string{strconv.Itoa(*ptr)} }
+			break
+		}
 		var p cli.IntParam
 		if isOpt {
 			p = cli.IntOpt{Name: name, Desc: desc, EnvVar: env, Value: def, HideValue: d.Hide, SetByUser: sbu}
@@ -464,6 +520,23 @@ func declare(cmd *cli.Cmd, d *declSpec, path string, sharedDefs map[string][]str
 
 	case "float":
 		def := parseFloatS(d, single(d, "0"))
+		if conv {
+			var ptr *float64
+			switch {
+			case isOpt && d.Ptr:
+				ptr = new(float64)
+				cmd.Float64OptPtr(ptr, name, def, desc)
+			case isOpt:
+				ptr = cmd.Float64Opt(name, def, desc)
+			case d.Ptr:
+				ptr = new(float64)
+				cmd.Float64ArgPtr(ptr, name, def, desc)
+			default:
+				ptr = cmd.Float64Arg(name, def, desc)
+			}
+			rec.read = func() []string { return []string{fmtFloat(*ptr)} }
+			break
+		}
 		var p cli.Float64Param
 		if isOpt {
 			p = cli.Float64Opt{Name: name, Desc: desc, EnvVar: env, Value: def, HideValue: d.Hide, SetByUser: sbu}
@@ -492,6 +565,23 @@ func declare(cmd *cli.Cmd, d *declSpec, path string, sharedDefs map[string][]str
 				sharedDefs[d.DefShare] = def
 			}
 		}
+		if conv {
+			var ptr *[]string
+			switch {
+			case isOpt && d.Ptr:
+				ptr = new([]string)
+				cmd.StringsOptPtr(ptr, name, def, desc)
+			case isOpt:
+				ptr = cmd.StringsOpt(name, def, desc)
+			case d.Ptr:
+				ptr = new([]string)
+				cmd.StringsArgPtr(ptr, name, def, desc)
+			default:
+				ptr = cmd.StringsArg(name, def, desc)
+			}
+			rec.read = func() []string { return append([]string{}, (*ptr)...) }
+			break
+		}
 		var p cli.StringsParam
 		if isOpt {
 			p = cli.StringsOpt{Name: name, Desc: desc, EnvVar: env, Value: def, HideValue: d.Hide, SetByUser: sbu}
@@ -512,6 +602,29 @@ func declare(cmd *cli.Cmd, d *declSpec, path string, sharedDefs map[string][]str
 		var def []int
 		for _, s := range d.Def {
 			def = append(def, parseIntS(d, string(s)))
+		}
+		if conv {
+			var ptr *[]int
+			switch {
+			case isOpt && d.Ptr:
+				ptr = new([]int)
+				cmd.IntsOptPtr(ptr, name, def, desc)
+			case isOpt:
+				ptr = cmd.IntsOpt(name, def, desc)
+			case d.Ptr:
+				ptr = new([]int)
+				cmd.IntsArgPtr(ptr, name, def, desc)
+			default:
+				ptr = cmd.IntsArg(name, def, desc)
+			}
+			rec.read = func() []string {
+				res := []string{}
+				for _, i := range *ptr {
+					res = append(res, strconv.Itoa(i))
+				}
+				return res
+			}
+			break
 		}
 		var p cli.IntsParam
 		if isOpt {
@@ -540,6 +653,29 @@ func declare(cmd *cli.Cmd, d *declSpec, path string, sharedDefs map[string][]str
 		for _, s := range d.Def {
 			def = append(def, parseFloatS(d, string(s)))
 		}
+		if conv {
+			var ptr *[]float64
+			switch {
+			case isOpt && d.Ptr:
+				ptr = new([]float64)
+				cmd.Floats64OptPtr(ptr, name, def, desc)
+			case isOpt:
+				ptr = cmd.Floats64Opt(name, def, desc)
+			case d.Ptr:
+				ptr = new([]float64)
+				cmd.Floats64ArgPtr(ptr, name, def, desc)
+			default:
+				ptr = cmd.Floats64Arg(name, def, desc)
+			}
+			rec.read = func() []string {
+				res := []string{}
+				for _, f := range *ptr {
+					res = append(res, fmtFloat(f))
+				}
+				return res
+			}
+			break
+		}
 		var p cli.Floats64Param
 		if isOpt {
 			p = cli.Floats64Opt{Name: name, Desc: desc, EnvVar: env, Value: def, HideValue: d.Hide, SetByUser: sbu}
@@ -566,6 +702,14 @@ func declare(cmd *cli.Cmd, d *declSpec, path string, sharedDefs map[string][]str
 		val, c := newCustom(d.Custom)
 		rec.cv = c
 		rec.read = c.logCopy
+		if conv {
+			if isOpt {
+				cmd.VarOpt(name, val, desc)
+			} else {
+				cmd.VarArg(name, val, desc)
+			}
+			break
+		}
 		if isOpt {
 			cmd.Var(cli.VarOpt{Name: name, Desc: desc, EnvVar: env, Value: val, HideValue: d.Hide, SetByUser: sbu})
 		} else {
@@ -743,6 +887,14 @@ func (r *runCtx) configure(cmd *cli.Cmd, c *cmdSpec, path string) {
 			continue
 		}
 		subPath := path + "/" + firstName(string(sub.Name))
+		if sub.Policy == nil && len(sub.Decls) == 0 && len(sub.Subs) == 0 && sub.Before == nil && sub.After == nil &&
+			len(sub.Spec) == 0 && len(sub.LongDesc) == 0 && !sub.Hidden {
+			// a leaf that only has an Action: declared through the ActionCommand helper, as the README does
+			if f := r.hook(sub.Action, "A", subPath, true); f != nil {
+				cmd.Command(string(sub.Name), string(sub.Desc), cli.ActionCommand(f))
+				continue
+			}
+		}
 		cmd.Command(string(sub.Name), string(sub.Desc), func(sc *cli.Cmd) {
 			if sub.Policy != nil {
 				sc.ErrorHandling = flag.ErrorHandling(*sub.Policy)
